@@ -252,6 +252,14 @@ def rule_same_base(col, facts):
                             ok = False
                     if ok:
                         feas.append(r)
+                if feas:
+                    # second reading, per path (a `match radix { 10 => .., other if !is_power_two!(other) => .. }`
+                    # joins edges): both readings over-approximate reachability, so their intersection is kept
+                    from rules import dispatch as _dp
+                    from rules.core import enum_paths as _ep
+                    _dp.FACTS[0] = facts
+                    paths = _ep(mp, 0, {bb})
+                    feas = [r for r in feas if any(all(_dp.holds(e, p, r, r) for e, p in atoms) for _t, atoms in paths)]
                 col.check(R, "moderate_path->bellerophon", not feas, "bellerophon (same-base only) is reachable for power-of-two mantissa radices %s, for which mixed exponent bases are admitted" % feas, mp.loc(mp.blocks[bb]["ts"]))
 
 
